@@ -449,13 +449,101 @@ pub fn run_marked_remote_and_substr(ops: &[(Op, Fault)], variant: u64) -> Option
     None
 }
 
-pub const SHAPE_NAMES: [&str; 9] = [
+/// Excluded fields whose *other* attributes mention the marker word (a doc comment, a lint
+/// attribute), and animated fields that carry the marker more than once - as many markers as the
+/// struct has fields, with the first and the last field excluded.
+#[derive(Animate, Clone, Debug, Default, PartialEq)]
+pub struct Wording {
+    /// Constant - this one is not animated.
+    pub id: u32,
+    #[animate]
+    #[animate]
+    #[animate]
+    pub x: f32,
+    #[animate]
+    pub y: f32,
+    #[doc = "never animate this"]
+    pub ticks: u32,
+}
+
+/// ... and the same with exactly as many markers as fields in a three-field struct.
+#[derive(Animate, Clone, Debug, Default, PartialEq)]
+pub struct Wording3 {
+    #[animate]
+    #[animate]
+    pub x: f32,
+    /// not an animated field
+    pub clicks: u16,
+    #[animate]
+    pub y: f32,
+}
+
+pub fn run_wording(ops: &[(Op, Fault)], variant: u64) -> Option<String> {
+    let w0 = Wording { id: 42, x: 1.0, y: 2.0, ticks: 1000 };
+    let wf = Wording { id: 7, x: 100.0, y: -200.0, ticks: 3 };
+    let v0 = Wording3 { x: 1.0, clicks: 99, y: 2.0 };
+    let vf = Wording3 { x: -50.0, clicks: 1, y: 75.0 };
+    let mut anim = StateAnimatorBuilder::new()
+        .from_state(Sh::C)
+        .from_values(w0.clone())
+        .on(
+            Sh::A,
+            Wording::timeline()
+                .duration_seconds(1.25)
+                .reverse(variant & 1 == 1)
+                .keyframe(Wording::keyframe_from(&wf, 0.0))
+                .keyframe(Wording::keyframe_from(&w0, 1.0)),
+        )
+        .on(Sh::B, Wording::timeline().duration_seconds(0.5).keyframe(Wording::keyframe(1.0).x(9.0)))
+        .build();
+    let mut anim3 = StateAnimatorBuilder::new()
+        .from_state(Sh::C)
+        .from_values(v0.clone())
+        .on(
+            Sh::A,
+            Wording3::timeline()
+                .duration_seconds(0.75)
+                .repeat(if variant & 2 == 2 { Repeat::Times(1) } else { Repeat::None })
+                .keyframe(Wording3::keyframe_from(&vf, 0.0))
+                .keyframe(Wording3::keyframe_from(&v0, 1.0)),
+        )
+        .build();
+    for (i, (op, _)) in ops.iter().enumerate() {
+        match op {
+            Op::Advance(dt) => {
+                anim.advance(*dt);
+                anim3.advance(*dt);
+            }
+            Op::SetState(s) => {
+                anim.set_state(&SH[*s as usize % 3]);
+                anim3.set_state(&SH[*s as usize % 3]);
+            }
+        }
+        let v = anim.current_values();
+        if v.id != w0.id || v.ticks != w0.ticks {
+            return Some(format!(
+                "shape Wording: operation {i} ({op:?}) changed an excluded field (its doc text mentions the marker word / other fields carry repeated markers): id {} ticks {} (must stay 42 / 1000)",
+                v.id, v.ticks
+            ));
+        }
+        let v = anim3.current_values();
+        if v.clicks != v0.clicks {
+            return Some(format!(
+                "shape Wording3: operation {i} ({op:?}) changed the excluded field clicks to {} (must stay 99)",
+                v.clicks
+            ));
+        }
+    }
+    None
+}
+
+pub const SHAPE_NAMES: [&str; 10] = [
     "OneOfThree", "OneOfTwo", "TwoOfThree", "ThreeOfFive", "Documented", "Mixed", "RemoteProxy", "Lone",
-    "MarkedRemoteAndSubstr",
+    "MarkedRemoteAndSubstr", "Wording",
 ];
 
 pub fn run_shape(which: usize, ops: &[(Op, Fault)], variant: u64) -> Option<String> {
-    match which % 9 {
+    match which % 10 {
         0 => run_one_of_three(ops, variant),
         1 => run_one_of_two(ops, variant),
         2 => run_two_of_three(ops, variant),
@@ -464,7 +552,8 @@ pub fn run_shape(which: usize, ops: &[(Op, Fault)], variant: u64) -> Option<Stri
         5 => run_mixed(ops, variant),
         6 => run_remote(ops, variant),
         7 => run_lone(ops, variant),
-        _ => run_marked_remote_and_substr(ops, variant),
+        8 => run_marked_remote_and_substr(ops, variant),
+        _ => run_wording(ops, variant),
     }
 }
 
